@@ -87,6 +87,23 @@ class Closure:
         self.env = env
         self.module = module
         self.kind = kind
+        self.attrs = {}
+
+
+class LruFn:
+    """functools.lru_cache(f): results are stored under the call's arguments; a later call is a hit when every argument has
+    the same hash as the stored one (hashes are taken when the key is built, i.e. at call time) and compares equal with ==."""
+
+    def __init__(self, fn, name="lru"):
+        self.fn = fn
+        self.name = name
+        self.entries = []  # (args tuple, hashes tuple, value)
+        self.events = []
+        self.attrs = {}
+
+    def clear(self):
+        self.entries = []
+        self.events.append(("clear",))
 
 
 class PyBuiltin:
@@ -530,6 +547,17 @@ class Interp:
             if z3.is_false(e):
                 return False
             return SBool(e)
+        if isinstance(a, SetVal) or isinstance(b, SetVal):
+            ia = list(a.items) if isinstance(a, SetVal) else (list(a) if isinstance(a, (set, frozenset)) else None)
+            ib = list(b.items) if isinstance(b, SetVal) else (list(b) if isinstance(b, (set, frozenset)) else None)
+            if ia is None or ib is None:
+                return False
+            acc = len(ia) == len(ib)
+            if not acc:
+                return False
+            for x in ia:
+                acc = self.b_and(acc, self.contains(ib, x, node))
+            return acc
         if isinstance(a, (list, tuple)) and isinstance(b, (list, tuple)):
             if len(a) != len(b) or type(a) != type(b):
                 return False
@@ -877,6 +905,19 @@ class Interp:
             raise PyRaise("AttributeError: %s.%s" % (obj.cls.name, name))
         if isinstance(obj, Model):
             return obj.getattr(self, name)
+        if isinstance(obj, LruFn):
+            if name == "cache_clear":
+                return PyBuiltin("cache_clear", lambda I_: obj.clear())
+            if name == "cache_info":
+                return PyBuiltin("cache_info", lambda I_: ("cache_info", len(obj.entries)))
+            if name in ("__wrapped__",):
+                return obj.fn
+            if name in obj.attrs:
+                return obj.attrs[name]
+        if isinstance(obj, Closure) and name in obj.attrs:
+            return obj.attrs[name]
+        if isinstance(obj, FuncInfo) and obj.cache is not None and self.registry is not None and getattr(self.registry, "model_caches", False):
+            return self.getattr(self.cached_callable(obj), name, node)
         if isinstance(obj, SuperProxy):
             mro = obj.obj.cls.mro()
             idx = mro.index(obj.after_cls) if obj.after_cls in mro else -1
@@ -922,6 +963,9 @@ class Interp:
             return
         if isinstance(obj, Model):
             obj.setattr(self, name, value)
+            return
+        if isinstance(obj, (Closure, LruFn)):
+            obj.attrs[name] = value
             return
         raise Unsupported("attribute assignment on %r" % (type(obj).__name__,))
 
@@ -1018,6 +1062,8 @@ class Interp:
             return self.instantiate(fn, args, kwargs, node)
         if isinstance(fn, Closure):
             return self.call_closure(fn, args, kwargs)
+        if isinstance(fn, LruFn):
+            return self.call_lru(fn, args, kwargs, node)
         if isinstance(fn, Model):
             return fn.call(self, "__call__", args, kwargs)
         if isinstance(fn, ExternalRef):
@@ -1045,10 +1091,48 @@ class Interp:
 
     def call_closure(self, cl, args, kwargs):
         fr = Frame(cl.module, cl.env.func, cl.env.cls)
+        # closures see later rebinding of enclosing names (late binding): share the dictionary through a chained lookup copy
         fr.vars = dict(cl.env.vars)
         fr.self_obj = cl.env.self_obj
         self.bind_args(cl.node.args, args, kwargs, fr, cl.env)
-        return self.eval(cl.node.body, fr)
+        if cl.kind == "lambda":
+            return self.eval(cl.node.body, fr)
+        self.depth += 1
+        try:
+            self.exec_block(cl.node.body, fr)
+            return None
+        except _Return as r:
+            return r.value
+        finally:
+            self.depth -= 1
+
+    def call_lru(self, lf, args, kwargs, node=None):
+        from pyvc import builtins_model as B
+
+        key = tuple(args) + tuple(v for _, v in sorted(kwargs.items()))
+        hashes = tuple(B.py_hash(self, a) for a in key)
+        for (k0, h0, v0) in lf.entries:
+            if len(k0) != len(key):
+                continue
+            same = True
+            for a0, a1, ha0, ha1 in zip(k0, key, h0, hashes):
+                if a0 is a1 and self.equal(ha0, ha1) is True:
+                    continue
+                if not self.P.branch(self.truth(self.equal(ha0, ha1))):
+                    same = False
+                    break
+                if a0 is a1:
+                    continue
+                if not self.P.branch(self.truth(self.equal(a0, a1, node))):
+                    same = False
+                    break
+            if same:
+                lf.events.append(("hit", key))
+                return v0
+        lf.events.append(("miss", key))
+        v = self.call(lf.fn, list(args), dict(kwargs), node)
+        lf.entries.append((key, hashes, v))
+        return v
 
     def bind_args(self, a, args, kwargs, fr, defaults_env):
         params = [p.arg for p in a.posonlyargs + a.args]
@@ -1081,8 +1165,26 @@ class Interp:
         elif kwargs:
             raise Unsupported("unexpected keyword arguments %s" % list(kwargs))
 
-    def call_function(self, fi, args, kwargs, node=None, force_inline=False):
+    def cached_callable(self, fi):
+        """the callable a memoising decorator produces for fi, built once per path by executing the REAL decorator code
+        (list_of_np_cache / two_np_arr_cache from phyclone.utils.utils) or the lru_cache model"""
+        table = self.P.ghost.setdefault("cached_callables", {})
+        if fi.qualname in table:
+            return table[fi.qualname]
+        plain = PyBuiltin("undecorated:" + fi.qualname, lambda I_, *a, **k: I_.call_function(fi, list(a), k, None, force_inline=False, bypass_cache=True))
+        if fi.cache == "lru_cache":
+            c = LruFn(plain, fi.name)
+        else:
+            factory = fi.module.resolve(fi.cache)
+            deco = self.call(factory, [], {})
+            c = self.call(deco, [plain], {})
+        table[fi.qualname] = c
+        return c
+
+    def call_function(self, fi, args, kwargs, node=None, force_inline=False, bypass_cache=False):
         """Call a repository function: by contract when one is registered (modular), else by executing its body."""
+        if fi.cache is not None and not bypass_cache and not force_inline and self.registry is not None and getattr(self.registry, "model_caches", False):
+            return self.call(self.cached_callable(fi), list(args), kwargs, node)
         if self.registry is not None and not force_inline:
             h = self.registry.call_contracts.get(fi.qualname)
             if h is not None:
@@ -1327,10 +1429,27 @@ class Interp:
         self.exec_block(node.finalbody, fr)
 
     def s_FunctionDef(self, node, fr):
-        fr.vars[node.name] = Closure(node, fr, fr.module, kind="def")
+        fn = Closure(node, fr, fr.module, kind="def")
+        for d in reversed(node.decorator_list):
+            name = _dotted_name(d.func if isinstance(d, ast.Call) else d).split(".")[-1]
+            if name == "wraps":
+                continue  # functools.wraps copies metadata only
+            if name == "lru_cache":
+                fn = LruFn(fn, node.name)
+                continue
+            self.unsupported(node, "decorator %s on a nested function" % name)
+        fr.vars[node.name] = fn
 
     def s_ClassDef(self, node, fr):
         self.unsupported(node, "nested class")
+
+
+def _dotted_name(node):
+    if isinstance(node, ast.Name):
+        return node.id
+    if isinstance(node, ast.Attribute):
+        return _dotted_name(node.value) + "." + node.attr
+    return "?"
 
 
 class SetVal:
